@@ -68,6 +68,15 @@ theorem iff_compile_correct_fixed (fx : Fix) (hfix : fx.f13 = true) : IffCompile
 example : (compile { f13 := true } (fun _ => some 0) true f13Witness.render).toOption.map (fun c => (c.size, c.feats)) =
     some (3, [0]) := rfl
 
+/-- non-vacuity (audit): `fx.f13 = true` is met by `{ f13 := true }`, and the repaired statement then covers the F13
+witness `not (not a)` itself (which `_partial` excludes): it compiles and the code means `a` -/
+example : ∃ c, compile { f13 := true } (fun _ => some 0) true f13Witness.render = .ok c ∧
+    ∀ env : Nat → Bool, evalIff c env = f13Witness.den (fun _ => some 0) env :=
+  iff_compile_correct_fixed { f13 := true } rfl (fun _ => some 0) f13Witness
+    (by simp [f13Witness, Expr.Resolves, Term.Resolves, Factor.Resolves])
+example : f13Witness.den (fun _ => some 0) (fun _ => true) = true ∧ f13Witness.den (fun _ => some 0) (fun _ => false) = false := by
+  simp [f13Witness, Expr.den, Term.den, Factor.den]
+
 /-- `a and\t\n( not b or c )`: hypotheses of the flagship are satisfiable by a non-trivial expression -/
 def sample : Expr :=
   .one (.and (.ident identA) sp1 tabnl
@@ -82,6 +91,43 @@ example : sample.Resolves (fun n => if n == [0x61] then some 0 else if n == [0x6
 example : (compile {} (fun n => if n == [0x61] then some 0 else if n == [0x62] then some 1 else some 2) true
     sample.render).toOption.map (fun c => (c.size, c.feats)) = some (6, [0, 1, 2]) := by rfl
 
+/-- `not (p:f or not not\t\nb) and c or ( ((a)))`: a `not` applied to a parenthesis (that does not start with `not`), an
+adjacent double `not`, nested parentheses, `and` and `or` at two levels, a prefixed name resolved by `lookupIn` in a
+second module -/
+def sample2 : Expr :=
+  .or (.and (.not sp1 (.paren osp0
+        (.or (.one (.ident ⟨[0x70, 0x3a, 0x66], by decide, by decide, by decide⟩)) sp1 sp1
+          (.one (.one (.not sp1 (.not tabnl (.ident identB)))))) osp0)) sp1 sp1 (.one (.ident identC)))
+    sp1 sp1
+    (.one (.one (.paren osp1 (.one (.one (.paren osp0 (.one (.one (.paren osp0 (.one (.one (.ident identA))) osp0))) osp0))) osp0)))
+
+/-- modules `m` (local; features a, b, c) and `p` (feature f): `p:f` is feature 3 -/
+def lookup2 : Bytes → Option Nat := lookupIn [([0x6d], [[0x61], [0x62], [0x63]]), ([0x70], [[0x66]])]
+
+/-- the bytes of `not (p:f or not not\t\nb) and c or ( ((a)))` -/
+example : sample2.render = [110, 111, 116, 32, 40, 112, 58, 102, 32, 111, 114, 32, 110, 111, 116, 32, 110, 111, 116, 9, 10, 98, 41,
+    32, 97, 110, 100, 32, 99, 32, 111, 114, 32, 40, 32, 40, 40, 97, 41, 41, 41] := rfl
+
+/-- non-vacuity (audit): the flagship instantiated at `sample2` under `lookupIn` with a prefixed name; its conclusion is
+not a triviality there — the compiled code has 8 records over 4 distinct features and the denotation is not constant -/
+example : ∃ c, compile {} lookup2 true sample2.render = .ok c ∧ ∀ env : Nat → Bool, evalIff c env = sample2.den lookup2 env :=
+  iff_compile_correct_partial {} lookup2 sample2
+    (by simp [sample2, lookup2, Expr.Resolves, Term.Resolves, Factor.Resolves, identA, identB, identC]; decide)
+    (by simp [sample2, Expr.NoNotParenNot, Term.NoNotParenNot, Factor.NoNotParenNot, Factor.parenNot, Expr.leftNot,
+      Term.leftNot, Factor.leftNot])
+example : (compile {} lookup2 true sample2.render).toOption.map (fun c => (c.size, c.feats)) = some (8, [3, 1, 2, 0]) := by rfl
+example : sample2.den lookup2 (fun _ => true) = true ∧ sample2.den lookup2 (fun _ => false) = false ∧
+    sample2.den lookup2 (fun k => k == 2) = true ∧ sample2.den lookup2 (fun k => k == 3 || k == 2) = false := by
+  simp [sample2, lookup2, Expr.den, Term.den, Factor.den, identA, identB, identC]; decide
+
+-- AUDIT: not vacuous, and not subsumed by `iff_compile_correct_partial` on the pinned tree: `not not (not a)` violates
+-- `NoNotParenNot` yet compiles (the two miscounts cancel), see the example below.  The last sentence of the docstring is
+-- stronger than the statement, though: the theorem says "a wrong result is never RETURNED" (wrong ⇒ `.error _`); that the
+-- error is then the out-of-bounds write (and not, say, `.internal` or `.count`) is not stated or proved anywhere.
+-- Minimal repair: either weaken the sentence to "… gets a valid expression wrong only by not returning a code", or add
+-- `∀ e, e.Resolves lookup → (∃ c, compile {} lookup true e.render = .ok c) ∨ compile {} lookup true e.render = .error .oobWrite`
+-- (needs a pass-1 characterisation without the shape hypothesis: j, fSize, fExp exact and exprSize ≤ code length; not
+-- attempted here).
 /-- **Soundness without the shape hypothesis.** For EVERY grammatical expression: if the compiler returns at all
 (no crash, no error), the compiled code evaluates to the value of the expression under every assignment. Together
 with `iff_compile_correct_fails` this says the only way `lys_compile_iffeature` gets a valid expression wrong is by the
@@ -96,6 +142,37 @@ theorem iff_compile_sound (fx : Fix) (lookup : Bytes → Option Nat) (e : Expr) 
 example : ∃ c, compile {} (fun _ => some 0) true
     (Expr.one (.one (.not sp1 (.not sp1 (.not sp1 (.paren osp0 (.one (.one (.ident identA))) osp0)))))).render = .ok c := by
   exact ⟨_, rfl⟩
+
+/-- `not not (not a)` -/
+def notNotParenNot : Expr :=
+  .one (.one (.not sp1 (.not sp1 (.paren osp0 (.one (.one (.not sp1 (.ident identA)))) osp0))))
+
+/-- non-vacuity (audit): beyond the flagship — `not not (not a)` has the excluded shape (`iff_compile_correct_partial` does
+not apply), the pinned tree compiles it all the same, and the theorem gives the value of the code: `not a` -/
+example : ¬ notNotParenNot.NoNotParenNot ∧
+    ∃ c, compile {} (fun _ => some 7) true notNotParenNot.render = .ok c ∧ c.size = 2 ∧
+      evalIff c (fun _ => true) = false ∧ evalIff c (fun _ => false) = true := by
+  have hres : notNotParenNot.Resolves (fun _ => some 7) := by
+    simp [notNotParenNot, Expr.Resolves, Term.Resolves, Factor.Resolves]
+  refine ⟨by simp [notNotParenNot, Expr.NoNotParenNot, Term.NoNotParenNot, Factor.NoNotParenNot, Factor.parenNot,
+    Expr.leftNot, Term.leftNot, Factor.leftNot], _, rfl, rfl, ?_, ?_⟩
+  · rw [iff_compile_sound {} _ notNotParenNot hres _ rfl]
+    simp [notNotParenNot, Expr.den, Term.den, Factor.den]
+  · rw [iff_compile_sound {} _ notNotParenNot hres _ rfl]
+    simp [notNotParenNot, Expr.den, Term.den, Factor.den]
+
+/-- non-vacuity (audit): the hypothesis `compile … = .ok c` is met at `sample2` (and/or/not, parentheses, prefixed name),
+and the theorem then fixes the value of the compiled code under concrete assignments: true when only `c` (id 2) is on,
+false when `p:f` (id 3) is on as well -/
+example : ∃ c, compile {} lookup2 true sample2.render = .ok c ∧ evalIff c (fun k => k == 2) = true ∧
+    evalIff c (fun k => k == 3 || k == 2) = false := by
+  have hres : sample2.Resolves lookup2 := by
+    simp [sample2, lookup2, Expr.Resolves, Term.Resolves, Factor.Resolves, identA, identB, identC]; decide
+  refine ⟨_, rfl, ?_, ?_⟩
+  · rw [iff_compile_sound {} lookup2 sample2 hres _ rfl]
+    simp [sample2, lookup2, Expr.den, Term.den, Factor.den, identA, identB, identC]; decide
+  · rw [iff_compile_sound {} lookup2 sample2 hres _ rfl]
+    simp [sample2, lookup2, Expr.den, Term.den, Factor.den, identA, identB, identC]; decide
 
 /-! ## rejection of ungrammatical arguments -/
 
@@ -135,6 +212,16 @@ example : compile { f3 := true } (fun _ => some 0) true [0x29, 0x61, 0x28] = .er
 /-- `((a) or b` -/
 example : ([0x28, 0x28, 0x61, 0x29, 0x20, 0x6f, 0x72, 0x20, 0x62] : Bytes).count chLP ≠ ([0x28, 0x28, 0x61, 0x29, 0x20, 0x6f, 0x72, 0x20, 0x62] : Bytes).count chRP := by decide
 
+/-- non-vacuity (audit): the theorem at `((a) or b` (two `(`, one `)`, an operator and two names), YANG 1.1, pinned tree;
+the error is "non-matching parentheses" -/
+example : ∃ er, compile {} (fun _ => some 0) true [0x28, 0x28, 0x61, 0x29, 0x20, 0x6f, 0x72, 0x20, 0x62] = .error er ∧
+    (er = .unexpEnd ∨ er = .missingBefore ∨ er = .parens) :=
+  iff_rejects_ungrammatical_partial {} (fun _ => some 0) true _ (by decide)
+example : compile {} (fun _ => some 0) true [0x28, 0x28, 0x61, 0x29, 0x20, 0x6f, 0x72, 0x20, 0x62] = .error .parens := rfl
+/-- non-vacuity (audit): … and at `a) and` (YANG 1.0), where the pre-scan stops earlier with "unexpected end" -/
+example : ([0x61, 0x29, 0x20, 0x61, 0x6e, 0x64] : Bytes).count chLP ≠ ([0x61, 0x29, 0x20, 0x61, 0x6e, 0x64] : Bytes).count chRP ∧
+    compile {} (fun _ => none) false [0x61, 0x29, 0x20, 0x61, 0x6e, 0x64] = .error .unexpEnd := ⟨by decide, rfl⟩
+
 /-! ## 2-bit packing -/
 
 /-- `lysc_iff_getop(iff_setop(list, op, pos), pos) = op` for every position inside the array and every 2-bit value, and
@@ -145,9 +232,21 @@ theorem iff_getop_setop (l : Bytes) (op : UInt8) (pos : Nat) (hpos : pos / 4 < l
 
 example : getop (setop [0xff, 0x00] 2 5) 5 = 2 := by decide
 
+/-- non-vacuity (audit): the theorem at a 2-byte array, record 5 (second byte, second slot, holding 2), `op = 1`: both
+hypotheses hold, the record changes and the frame part is about 7 other real records with all four codes -/
+example : getop (setop [0xff, 0x1b] 1 5) 5 = 1 ∧ ∀ pos', pos' ≠ 5 → getop (setop [0xff, 0x1b] 1 5) pos' = getop [0xff, 0x1b] pos' :=
+  iff_getop_setop [0xff, 0x1b] 1 5 (by decide) (by decide)
+example : (List.range 8).map (getop [0xff, 0x1b]) = [3, 3, 3, 3, 3, 2, 1, 0] ∧
+    (List.range 8).map (getop (setop [0xff, 0x1b] 1 5)) = [3, 3, 3, 3, 3, 1, 1, 0] := by decide
+
 /-- the whole record array written by pass 2 (descending positions, as the C code writes it) reads back as the records -/
 theorem iff_pack_readback (ops : List UInt8) (hops : ∀ x ∈ ops, x ≤ 3) (i : Nat) :
     getop (packFrom 0 ops (List.replicate (nbytes ops.length) 0)) i = ops.getD i 0 :=
   getop_pack ops hops i
+
+/-- non-vacuity (audit): six records using all four 2-bit codes, spanning two bytes -/
+example : getop (packFrom 0 [2, 1, 3, 0, 3, 1] (List.replicate (nbytes 6) 0)) 4 = 3 :=
+  iff_pack_readback [2, 1, 3, 0, 3, 1] (by decide) 4
+example : packFrom 0 [2, 1, 3, 0, 3, 1] (List.replicate (nbytes 6) 0) = [0x36, 0x07] := by decide
 
 end LyModel.Props.C11
